@@ -176,9 +176,30 @@ def completion_oracle(ctx, text, toks_full, toks_plain):
             i, body_f[i:i + 3], body_p[i:i + 3]), KNOWN_PRED)
 
 
+def tokenize_case(text):
+    from harness import impl
+    return len(impl.tokenize(text, True, True))
+
+
+PUMP = ['/*' + '*' * 60, '"' + 'a' * 60, "'" + 'b c' * 30 + '\n', 'url(' + 'a' * 80, 'url("' + 'x' * 60, '-' * 80, '\\' * 60,
+        '1' * 80 + '.', '@' + 'a-' * 50, '#' + 'z' * 90, 'u+' + '?' * 40, '<!-' * 40, 'a' + '\\41 ' * 40]
+
+
 def run(ctx):
     from harness import impl
     quick = ctx.tier == 'quick'
+    # termination in practice: pumping families in worker processes with a time limit; a hang is a violation
+    # and the in-process part below is skipped (it would hang as well)
+    pool = impl.Pool('harness.props.c05.tokenize_case', nproc=8)
+    pumps = PUMP + [p * 3 for p in PUMP]
+    res = pool.map(pumps, lambda t: 5.0)
+    slow = [t for t, r in zip(pumps, res) if r[0] != 'ok']
+    for t in slow[:3]:
+        ctx.violation('time', {'text': t}, 'tokenizing %d characters did not finish within 5 s' % len(t), KNOWN_PRED)
+    for t in pumps:
+        ctx.case(('pump', t))
+    if slow:
+        return
     cases = gen_cases(ctx, 1500 if quick else 40000, 1500 if quick else 40000, 600 if quick else 8000)
     cases += first_char_sweep(ctx.tier)
     corpus = core.VERIF + '/corpus/C05.json'
